@@ -12,7 +12,7 @@ import (
 )
 
 // EditKinds of a partially applied file.
-var EditKinds = []string{"change", "insert", "delete", "swap", "truncate", "append"}
+var EditKinds = []string{"change", "insert", "delete", "swap", "truncate", "append", "respace-literal"}
 
 // ApplyEdit edits a statement list. It returns the new list.
 func ApplyEdit(t *simkit.Tape, stmts []string, tag string, fresh *int) (out []string, kind string, at int) {
@@ -47,6 +47,21 @@ func ApplyEdit(t *simkit.Tape, stmts []string, tag string, fresh *int) (out []st
 	case "append":
 		at = n
 		out = append(out, newStmt())
+	case "respace-literal":
+		// Only the white space inside a string literal changes: another statement all the same.
+		var cand []int
+		for i, st := range out {
+			if strings.Contains(st, "'a;b -- c'") {
+				cand = append(cand, i)
+			}
+		}
+		if len(cand) == 0 {
+			kind, at = "change", t.Draw("edit-at", n)
+			out[at] = newStmt()
+			break
+		}
+		at = cand[t.Draw("edit-at", len(cand))]
+		out[at] = strings.Replace(out[at], "'a;b -- c'", "'a;b  -- c'", 1)
 	}
 	return
 }
